@@ -405,7 +405,7 @@ def ext_of(v):
         return INF
     if v == -inf:
         return "-inf"
-    return int(v)
+    return int(v) if v == int(v) else v          # fractional unit costs (scaled vectors) give fractional totals
 
 
 # ---------------------------------------------------------------------------
